@@ -1,5 +1,6 @@
 import EudoxiaModel.Proofs.Account
 import EudoxiaModel.Props.C10
+import EudoxiaModel.Proofs.Cids
 /-! # C09 — every accepted assignment becomes exactly one container with exactly one outcome -/
 namespace Eudoxia.C09
 open Eudoxia OpState
@@ -63,5 +64,46 @@ theorem suspended_container_reports_nothing (p : Pool) : ∀ r ∈ (collect p).2
   intro r hr
   obtain ⟨c, hc, _, e⟩ := C10.results_come_from_running_containers p r hr
   exact ⟨c, hc, e⟩
+
+/-- **what a result says about the operators, over a whole executor tick.**  In any world reached by ticks from one whose containers have their record straight
+(`World.FinS`: e.g. a world without containers; the tick hands the property on), every result of a tick with any admissible commands is the result of a container
+whose operators are COMPLETED up to where it got; it is a **success exactly when nothing is left** after that point; and a **failure leaves a non-empty rest,
+all FAILED** — the completed prefix followed by failed operators of the property, however many pools, kills and write-outs the tick contained. -/
+theorem result_is_completed_prefix_then_failed (w0 w1 : World) (asgs : List Asg) (sus : List (Nat × Nat)) (hr : WorldReady w0) (hb : Built w0 asgs w1)
+    (hseg : ∀ a ∈ asgs, ∀ r ∈ a.ops, w0.store.segsOf r ≠ []) (hpar : ∀ a ∈ asgs, ParentsOK w1.store a.ops)
+    (hsus : ∀ i, ((sus.filter (·.1 == i)).map (·.2)).Nodup) (hf : w0.FinS)
+    {w2 : World} {res : List Res} (hx : w1.execTick sus asgs = .ok (w2, res)) :
+    w2.FinS ∧ ∀ r ∈ res, ∃ c, r = mkRes c ∧ r.ops = c.ops.take c.curOpIdx ++ c.unfinished ∧
+      (∀ o ∈ c.ops.take c.curOpIdx, w2.store.stOf o = completed) ∧
+      (r.ok = true → c.unfinished = []) ∧ (r.ok = false → c.unfinished ≠ [] ∧ ∀ o ∈ c.unfinished, w2.store.stOf o = failed) := by
+  obtain ⟨f2, cs, js, e, hc, _, _, _, _, _⟩ := execTick_finS w0 w1 asgs sus hr hb hseg hpar hsus hf hx
+  refine ⟨f2, fun r hrr => ?_⟩
+  rw [e] at hrr
+  obtain ⟨c, hcm, rfl⟩ := List.mem_map.mp hrr
+  obtain ⟨f, hcc⟩ := hc c hcm
+  refine ⟨c, rfl, by simp [mkRes, Ctr.unfinished], f.pre, fun hok => ?_, fun hok => ?_⟩
+  · apply f.done hcc
+    simpa [mkRes] using hok
+  · apply f.dead hcc
+    simpa [mkRes] using hok
+
+/-- non-vacuity: a world without containers has every container's record straight -/
+theorem fresh_world_finS (cfg : Cfg) (store : Store) (pipes : Array PipeInfo) (caps : List (Nat × Nat)) :
+    World.FinS { cfg := cfg, store := store, pools := caps.map (fun c => Pool.fresh c.1 c.2), pipes := pipes } := by
+  intro p hp c hc
+  obtain ⟨x, _, rfl⟩ := List.mem_map.mp hp
+  simp [Pool.fresh] at hc
+
+/-- **one container per accepted assignment, told apart for ever.**  If the containers of all pools — running, being written out, suspended — carry pairwise
+different numbers, all below the executor's counter (`World.CidsOK`), the same holds after an executor tick with any commands: a number handed out is never
+handed out again, so results, suspension requests and the scheduler's remembered jobs, which all name a container by its number, name exactly one. -/
+theorem container_numbers_never_reused {w w2 : World} {sus : List (Nat × Nat)} {asgs : List Asg} {res : List Res}
+    (hg : ∀ p ∈ w.pools, PoolGoodMem w.cfg p w.nextCid) (hc : w.CidsOK) (hx : w.execTick sus asgs = .ok (w2, res)) : w2.CidsOK :=
+  execTick_cids hg hc hx
+
+/-- non-vacuity: a world without containers -/
+theorem fresh_world_numbers (cfg : Cfg) (store : Store) (pipes : Array PipeInfo) (caps : List (Nat × Nat)) :
+    World.CidsOK { cfg := cfg, store := store, pools := caps.map (fun c => Pool.fresh c.1 c.2), pipes := pipes } :=
+  fresh_world_cidsOK cfg store pipes caps
 
 end Eudoxia.C09
